@@ -139,11 +139,22 @@ def main():
     sh = 700
     for k in range(0, len(ritems), sh):
         files[f"Run_resolve_{k // sh}"] = PHEADER + td + f"Definition cases : list (str * rexp) := {clist(ritems[k:k + sh])}.\nDefinition mm := Eval vm_compute in mismatches (resolve_ok tab) cases.\nPrint mm.\nLemma run_agrees : mm = [].\nProof. reflexivity. Qed.\n"
+    # text level: the text the model's printer writes, scanned and parsed by the character-level model of the shipped parser
+    # (Model/Lex.v + LR.v on the regenerated tables), gives back exactly the printed term list
+    import lexgen
+    try:
+        pdefs = lexgen.parser_defs()
+        tl = ("Definition text_ok (c : unit3 * list (positive * Z) * str) : bool := let '(u, of, _) := c in\n"
+              "  match print_terms pt u of with PTerms l => render_parses_back NM lex_order lex_ignore lr_rules rule_infos filtered lr_terminals end_sym T_unit l | _ => true end.\n"
+              "Definition mmt := Eval vm_compute in mismatches text_ok pcases.\nPrint mmt.\nLemma text_level_agrees : mmt = [].\nProof. reflexivity. Qed.\n")
+    except lexgen.Untranslatable as ex:
+        pdefs, tl = "", ""
+        c.oblige("lexgen.parser_defs (translator of the shipped parser for the text-level round trip)", False, f"untranslatable: {ex}")
     for k in range(0, len(pitems), sh):
-        files[f"Run_print_{k // sh}"] = (PHEADER + td + f"Definition pcases : list (unit3 * list (positive * Z) * str) := {clist(pitems[k:k + sh])}.\n"
+        files[f"Run_print_{k // sh}"] = (PHEADER + pdefs + td + f"Definition pcases : list (unit3 * list (positive * Z) * str) := {clist(pitems[k:k + sh])}.\n"
             f"Definition bcases : list (unit3 * list (positive * Z) * pres) := {clist(bitems[k:k + sh])}.\n"
             "Definition mmp := Eval vm_compute in mismatches (print_ok pt) pcases.\nPrint mmp.\nDefinition mmb := Eval vm_compute in mismatches (roundtrip_ok tab pt) bcases.\nPrint mmb.\n"
-            "Lemma print_agrees : mmp = [].\nProof. reflexivity. Qed.\nLemma roundtrip_agrees : mmb = [].\nProof. reflexivity. Qed.\n")
+            "Lemma print_agrees : mmp = [].\nProof. reflexivity. Qed.\nLemma roundtrip_agrees : mmb = [].\nProof. reflexivity. Qed.\n" + tl)
     out = c.run_coq(files)
     okg, logg = out["Gen_symtab"]
     def pairs(tag):
@@ -159,8 +170,8 @@ def main():
     c.cov["names_shadowed_or_unresolvable"] = [uname_exact[i] for i in (shad or [])]
     for n, (ok, log) in sorted(out.items()):
         if n == "Gen_symtab": continue
-        mm = re.findall(r"mm[pb]? =\s*(\[[^\]]*\])", log, re.S)
-        c.oblige(f"{n}: model = implementation ({'Unit.resolve_symbol' if 'resolve' in n else 'str(unit) text and Unit.parse(str(unit))'})", ok, (str(mm) + log[-500:])[:900])
+        mm = re.findall(r"mm[pbt]? =\s*(\[[^\]]*\])", log, re.S)
+        c.oblige(f"{n}: model = implementation ({'Unit.resolve_symbol' if 'resolve' in n else 'str(unit) text, Unit.parse(str(unit)), and the printed text parsed back by the character-level parser model'})", ok, (str(mm) + log[-500:])[:900])
     # ---------------- the property on the implementation
     stats = {"same_object": 0, "leading_magnitude": 0, "prefix_without_symbol": 0, "collision": 0, "quantities": 0, "spellings": 0}
     seen_coll = set()
